@@ -225,6 +225,20 @@ def sm_families(prop):
          "encodes": SM_V4_FNS, "stubs": SM_STUBS, "assumes": [SM_INV, SM_ADMISSION],
          "outside": ["EventLoop::poll/select, Network::readb, timers (async/tokio)", "max_inflight > 3",
                      "MqttState::clean() with held publishes (CBMC > 48 GB)", "MQTT 5 state machine"]},
+        {"name": "v5_steps", "filters": ["sm::v5::in_puback_m2", "sm::v5::in_puback_failure_m2", "sm::v5::in_pubrec_failure_m2",
+                                         "sm::v5::in_pubcomp_m2"],
+         "tier": "thorough", "timeout": 2400, "jobs": 1, "mem_gb": 46, "min_harnesses": 4, "playback": False,
+         "kind": "I (inductive steps of the MQTT 5 client state machine; shared by C02/C07/C10 - every clause asserted, one at a time "
+                 "with 46 GB: each needs 8-15 min and ~40 GB)",
+         "bounds": "max_inflight 2; arbitrary INV state as for the 3.1.1 client; PUBACK with success and with a failure reason, PUBREC "
+                   "with a failure reason, PUBCOMP (success); broker ids symbolic over {0..=3, 0xFFFF}; no properties, no topic alias",
+         "asserts": "as v4_steps, plus: a failure reason code still frees the slot and the window and resolves a collision parked on "
+                    "that id; PUBCOMP is validated before the parked publish is touched",
+         "encodes": ["rumqttc::v5::MqttState::{new, handle_incoming_packet, handle_incoming_puback, handle_incoming_pubrec, "
+                     "handle_incoming_pubcomp, check_collision}"],
+         "stubs": SM_STUBS + ["std::hash::RandomState::new -> fixed keys (the topic-alias HashMap stays empty)"],
+         "assumes": [SM_INV],
+         "outside": ["the other MQTT 5 steps (written in sm/v5.rs, not run: ~15 min and 40 GB each)", "topic aliases, receive-maximum"]},
         {"name": "bitset_sizes", "filters": ["sm::v4::bitset_sizes"], "tier": "quick", "timeout": 300, "jobs": 6,
          "kind": "stub contract witness", "bounds": "max_inflight = 3",
          "asserts": "MqttState::new requests max+1 bits for outgoing_rel and 65536 bits for incoming_pub",
@@ -254,7 +268,8 @@ SM_TITLES = {
     "C18": "Client keep-alive pings on time and detects a silent broker, no false alarms",
 }
 for _p, _t in SM_TITLES.items():
-    PROPS[_p] = {"title": _t, "families": sm_families(_p), "guards": SM_GUARDS, "uses_admission": True}
+    _f = [f for f in sm_families(_p) if not (f["name"] == "v5_steps" and _p in ("C11", "C18"))]
+    PROPS[_p] = {"title": _t, "families": _f, "guards": SM_GUARDS, "uses_admission": True}
 
 
 # ---------------------------------------------------------------------------
